@@ -132,6 +132,35 @@ def record_workspace(rng):
     return ws
 
 
+def deep_module_workspace(rng):
+    """modules two to five path segments deep, imported plainly (the qualifier is the LAST segment), with an alias, and with
+    unqualified members; the importing module declares look-alikes of its own.  Occurrences known by construction."""
+    depth = rng.randrange(2, 6)
+    segs = rng.sample(["app", "web", "core", "http", "inner", "v2"], depth - 1) + ["router"]
+    path = "/".join(segs)
+    segs2 = rng.sample(["lib", "data", "codec", "json"], rng.randrange(2, 4)) + ["session"]
+    path2 = "/".join(segs2)
+    router = "pub type Route {\n  Home\n  About(id: Int)\n}\n\npub fn handle(r: Route) {\n  case r {\n    Home -> 0\n    About(id) -> id\n  }\n}\n\npub const limit = 3\n"
+    session = "pub fn open() {\n  1\n}\n\npub type Token {\n  Token(raw: Int)\n}\n"
+    twin = rng.random() < 0.6
+    main = (f"import {path}\nimport {path2} as ss\nimport {path2}.{{open as begin}}\n\n" +
+            ("pub type Route {\n  Local\n}\n\npub fn handle() {\n  Local\n}\n\n" if twin else "") +
+            "pub fn main() {\n  let a = router.handle(router.About(router.limit))\n  let b = ss.open()\n  let t = ss.Token(begin())\n  #(a, b, t.raw)\n}\n\n"
+            "pub fn pick(r: router.Route) {\n  case r {\n    router.Home -> 1\n    router.About(id: n) -> n\n  }\n}\n")
+    ws = PlainWs([(f"/w/p/src/{path}.gleam", router), (f"/w/p/src/{path2}.gleam", session), ("/w/p/src/main.gleam", main), ("/w/p/gleam.toml", 'name = "p"\n')])
+    def at(fi, text, needle, k=0):
+        return (fi, text.index(needle) + k)
+    ws.groups = [
+        ("handle", [at(0, router, "fn handle", 3), at(2, main, "router.handle(", 7)]),
+        ("About", [at(0, router, "  About(id", 2), at(0, router, "    About(id)", 4), at(2, main, "router.About(router", 7), at(2, main, "router.About(id: n", 7)]),
+        ("Home", [at(0, router, "  Home\n", 2), at(0, router, "    Home ->", 4), at(2, main, "router.Home", 7)]),
+        # (`router.limit`, a qualified constant, is the recorded finding C05/qualified-constant and is left out of the groups)
+        ("Route", [at(0, router, "type Route", 5), at(0, router, "r: Route", 3), at(2, main, "r: router.Route", 10)]),
+        ("open", [at(1, session, "fn open", 3), at(2, main, "ss.open()", 3)]),
+    ]
+    return ws
+
+
 def run_expected_groups(res, prop, wss):
     """occurrences known by construction to denote one definition (first = declaration): each must lead to it,
     its references must contain them all and nothing of another group, a rename must rewrite exactly them"""
@@ -193,6 +222,7 @@ def run_c06(res, tier, seed):
     wss = [gen_scope.generate(seed * 7919 + i) for i in range(n_ws)]
     rrng = random.Random(seed + 6)
     wss += [record_workspace(rrng) for _ in range(12 if tier == "quick" else 100)]
+    wss += [deep_module_workspace(rrng) for _ in range(6 if tier == "quick" else 60)]
     run_expected_groups(res, "C06", wss)
     all_toks = stage1(wss)
     # group tokens by definition
@@ -459,6 +489,7 @@ def run(prop, res, tier, seed):
         try:
             for k in range(2 if tier == "quick" else 12):
                 p_project.run_e2e_manifest(res, f"{base}/manifest{k}", random.Random(seed * 1000 + 700 + k), "C08")
+                p_project.run_e2e_same_name(res, f"{base}/same{k}", random.Random(seed * 1000 + 750 + k), "C08")
         finally:
             shutil.rmtree(base, ignore_errors=True)
     elif prop == "C07":
